@@ -59,8 +59,14 @@ abbrev Expr := List Word
 def renderRange (r : Range) : Str :=
   r.loS ++ (match r.hiS with | some h => '-' :: h | none => [])
 
+/-- pieces joined by commas -/
+def joinComma : List Str → Str
+  | [] => []
+  | [x] => x
+  | x :: y :: rest => x ++ ',' :: joinComma (y :: rest)
+
 def renderGroup (g : List Range) : Str :=
-  '[' :: ([','].intercalate (g.map renderRange)) ++ [']']
+  '[' :: joinComma (g.map renderRange) ++ [']']
 
 def renderTail : Option (List Range × Str) → Str
   | none => []
